@@ -289,3 +289,15 @@ _add(Cond('iterable_element_orders', [('k0', 'int'), ('k1', 'int'), ('k2', 'int'
         functions=['prepare_iter_for_array', 'iterable_to_array_1d'],
         bounds=f'a Python iterable of 3 elements, the kind of every element symbolic over {ITER_KINDS} (3, 2**60+1, 1.5, NaN, None, "wxyz"): every multiset in EVERY order',
         route='iterable_to_array_1d (list and iterator) / Series(list) / Frame.from_records column / Frame.from_items column: every element read back equals what was supplied', timeout=300))
+
+
+# ---------------------------------------------------------------- values carried ACROSS blocks by a fill keep value and type
+# (the condition body is shared with C14, where the subject is the fill; here it is the dtype resolution between the
+# block that supplies the value and the block that receives it: _fillna_directional_axis_1 -> resolve_dtype)
+from harness.C14 import body_directional_mixed as _body_directional_mixed  # noqa: E402
+
+_add(Cond('site_fill_across_blocks_kinds', [('k0', 'int'), ('k1', 'int'), ('k2', 'int'), ('m0', 'bool'), ('m1', 'bool'), ('m2', 'bool')], _body_directional_mixed,
+        ranges={'k0': (0, 2), 'k1': (0, 2), 'k2': (0, 2)}, pre=['k0 == 0 or not m0', 'k1 == 0 or not m1', 'k2 == 0 or not m2'],
+        functions=['TypeBlocks._fillna_directional_axis_1', 'resolve_dtype'],
+        bounds='one-row frame of 3 columns; the kind of every column symbolic over (float64, int64, bool), float cells possibly missing (symbolic); every block layout that can hold the kinds',
+        route='fillna_forward / fillna_backward(axis=1): a value carried from a block of one kind into a block of another kind is stored without loss (value and type)', timeout=300))
